@@ -517,3 +517,38 @@ Theorem C06_model_is_source_size_scorer_score_general : forall plates : list (Z 
   = Ok (fold_left (fun d x => PyRt.dict_set d (fst x) (Z.of_nat (length (snd x)))) plates []).
 Proof. exact C06SourceSize.src_size_scorer_general. Qed.
 Print Assumptions C06_model_is_source_size_scorer_score_general.
+(* ---- the argument-handling glue of select_next_plate is what the source says NOW ----
+   `src_sn_get_args` is the WHOLE function get_args of /repo's current batchie/cli/select_next_plate.py (parser.parse_args() is the primitive that
+   yields the raw namespace; the statements after it - class lookup by name, required-argument annotations, cast of the KEY=VALUE
+   parameters - are translated), `src_cli_select_next_plate_cmd` is main() once more as a whole command, in which get_args() is the translated
+   get_args and `args.policy_cls( **args.policy_params)` is `construct` on the two namespace attributes; both re-translated on every run (configurations
+   ARGS_GET_ARGS_SN / ARGS_CMD_SN -> Generated/SrcCliArgs.v).  Model: the last part of Model/Cli.v; `I` = introspection.get_class /
+   get_required_init_args_with_annotations (linked to their own translations in Props/C18.v), `P` = s.lower(), int(s), float(s), the call of
+   another annotation object; cast_dict_to_type is the translated function (Props/C18.v).  The statements hold for EVERY such record. *)
+From Batchie Require Proofs.C06SourceArgs Proofs.C18SourceIntrospect Generated.SrcCliArgs.
+Theorem C06_model_is_source_cli_args_get_args : forall (Cls F O : Type) (I : Cli.introspect Cls) (P : Cli.pyprims F O)
+  (raw : Cli.sn_ns Cls F O),
+  SrcCliArgs.src_sn_get_args Cls F O I P raw = Cli.sn_get_args I P raw.
+Proof. exact C06SourceArgs.src_sn_get_args_is_model. Qed.
+Print Assumptions C06_model_is_source_cli_args_get_args.
+
+(* the whole command: sn_mk_policy of C06_model_is_source_cli_select_next_plate IS the class found under the name --policy,
+   instantiated with the cast --policy-param values (no policy, and no class lookup at all, when --policy is absent) *)
+Theorem C06_model_is_source_cli_args_select_next_plate :
+  forall (Cls F O : Type) (I : Cli.introspect Cls) (P : Cli.pyprims F O) (Scr Pl Po H : Type)
+         (construct : Cls -> list (Cli.str * Cli.pval F O) -> result Po) (L : Cli.sn_lib Scr Pl Po H) (mix : Z -> Z)
+         (raw : Cli.sn_ns Cls F O),
+  SrcCliArgs.src_cli_select_next_plate_cmd Cls F O I P Scr Pl Po H construct L mix raw
+  = Cli.cli_select_next_plate_cmd I P construct L mix raw.
+Proof. exact C06SourceArgs.src_cli_select_next_plate_cmd_is_model. Qed.
+Print Assumptions C06_model_is_source_cli_args_select_next_plate.
+
+(* everything from the source: the introspection record made of the translated get_class / get_required_init_args... *)
+Theorem C06_model_is_source_cli_args_select_next_plate_world :
+  forall (Mod Obj F O : Type) (W : Cli.pyworld Mod Obj) (P : Cli.pyprims F O) (Scr Pl Po H : Type)
+         (construct : Obj -> list (Cli.str * Cli.pval F O) -> result Po) (L : Cli.sn_lib Scr Pl Po H) (mix : Z -> Z)
+         (raw : Cli.sn_ns Obj F O),
+  SrcCliArgs.src_cli_select_next_plate_cmd Obj F O (C18SourceIntrospect.introspect_src W) P Scr Pl Po H construct L mix raw
+  = Cli.cli_select_next_plate_cmd (Cli.introspect_of W) P construct L mix raw.
+Proof. exact C06SourceArgs.src_cli_select_next_plate_cmd_world. Qed.
+Print Assumptions C06_model_is_source_cli_args_select_next_plate_world.
